@@ -71,7 +71,7 @@ def scase(c):
 
 PRELUDE = (g.HEADER +
            "From Coq Require Import Floats.\n"
-           "From Crem Require Import Base.Res Base.Fl Dominance SuppRtbFloat Suppapitnarm SuppapitnarmCorr.\n"
+           "From Crem Require Import Base.Res Base.Fl Dominance NdArchive SuppRtbFloat Suppapitnarm SuppapitnarmCorr.\n"
            "Open Scope Q_scope.\n")
 
 
